@@ -19,7 +19,12 @@ from . import common
 
 
 def run_diff(ctx, engine, profiles, n_quick, n_thorough, oracle=None, known_class=None,
-             nontrivial_rule=None, rule_text="", extra_assumptions=None, thm_note="", shards=8):
+             nontrivial_rule=None, rule_text="", extra_assumptions=None, thm_note="", shards=8,
+             finding_class=None):
+    """finding_class(case, diff, impl_lines, model_lines) -> class name or None: a disagreement
+    with the specification / an oracle that falls into a class listed for this property in
+    /verif/known-findings.txt is reported as KNOWN-FINDING (exit 0); everything else, and every
+    class that is not listed, is a VIOLATION."""
     t0 = time.time()
     proof_broken, rep, digest, driver, harness = engine.build(ctx)
     n = n_quick if ctx.tier == "quick" else n_thorough
@@ -77,6 +82,29 @@ def run_diff(ctx, engine, profiles, n_quick, n_thorough, oracle=None, known_clas
         ctx.violation(dict(kind=kind, engine=engine.NAME, case=c, first_difference=r,
                            how_to_replay="./vp replay <this file>"), no_input=no_input)
 
+    listed = {kf["class"]: kf for kf in common.known_findings() if kf["property"] == ctx.prop}
+    known_by_class = {}
+    unlisted_by_class = {}
+
+    def is_known(c, r):
+        if finding_class is None:
+            return False
+        cid = c.split()[1]
+        cls = finding_class(c, r, impl.get(cid, []), model.get(cid, []))
+        if cls is None:
+            return False
+        if cls in listed:
+            known_by_class.setdefault(cls, []).append(c)
+            return True
+        unlisted_by_class.setdefault(cls, []).append(c)
+        r["finding_class_not_listed_in_known_findings"] = cls
+        return False
+
+    spec_diffs_all = spec_diffs
+    spec_diffs = [(c, r) for c, r in spec_diffs if not is_known(c, r)]
+    oracle_diffs_all = oracle_diffs
+    oracle_diffs = [(c, o) for c, o in oracle_diffs if not is_known(c, o)]
+
     # (a) the implementation differs from the specification: a concrete failing input
     reported = 0
     for c, r in spec_diffs[:3]:
@@ -84,6 +112,8 @@ def run_diff(ctx, engine, profiles, n_quick, n_thorough, oracle=None, known_clas
         i2, m2 = engine.run_both([small], harness, driver, shards=1)
         cid = small.split()[1]
         r2 = engine.compare_case(i2[cid], m2[cid])
+        if r2["level"] and "finding_class_not_listed_in_known_findings" in r:
+            r2["finding_class_not_listed_in_known_findings"] = r["finding_class_not_listed_in_known_findings"]
         report_case(small, r2 if r2["level"] else r, "implementation differs from the from-scratch specification")
         reported += 1
     known_met = 0
@@ -98,6 +128,8 @@ def run_diff(ctx, engine, profiles, n_quick, n_thorough, oracle=None, known_clas
         for kf in common.known_findings():
             if kf["property"] == ctx.prop:
                 ctx.known_finding(f"class={kf['class']} {kf['text']} (met in {known_met} generated cases)")
+    for cls, cs in sorted(known_by_class.items()):
+        ctx.known_finding(f"class={cls} {listed[cls]['text']} (met in {len(cs)} generated cases, e.g. case {cs[0].split()[1]})")
 
     # (b) the property is no longer *shown*: a proof or the model/implementation correspondence broke
     searched = 0
@@ -162,11 +194,16 @@ def run_diff(ctx, engine, profiles, n_quick, n_thorough, oracle=None, known_clas
         "distinct_nontrivial": nontrivial,
         "rule": "seeded generation (profiles %s); %s; distinct = different program+history text" % (
             ",".join(profiles), rule_text),
-        "traces_validated_against_impl": len(cases) - len(corr_diffs) - len(spec_diffs),
+        "traces_validated_against_impl": len(cases) - len(corr_diffs),
         "correspondence_levels": engine.LEVELS,
-        "implementation_vs_spec_disagreements": len(spec_diffs),
+        "implementation_vs_spec_disagreements": len(spec_diffs_all),
+        "implementation_vs_spec_disagreements_outside_known_classes": len(spec_diffs),
+        "oracle_disagreements_outside_known_classes": len(oracle_diffs),
+        "known_finding_classes_met": {k: len(v) for k, v in known_by_class.items()},
+        "finding_classes_met_but_not_listed": {k: len(v) for k, v in unlisted_by_class.items()},
+        "known_finding_samples": {k: v[0] for k, v in known_by_class.items()},
         "implementation_vs_model_disagreements": len(corr_diffs),
-        "oracle_disagreements": len(oracle_diffs),
+        "oracle_disagreements": len(oracle_diffs_all),
         "known_finding_cases": known_met,
         "failing_input_search_cases": searched,
         "feature_histogram": feats_count,
